@@ -3,7 +3,8 @@ import re
 
 from .. import obs as O
 from .. import sgr_model as M
-from .common import (Contract, ansi_values, history, run_cases, tier_sizes, is_ansi, safe_obs, settings_texts)
+from .common import (Contract, ansi_values, history, run_cases, tier_sizes, is_ansi, safe_obs, settings_texts,
+                     esc_seam_values)
 from ..gen import gen_format_spec
 
 PROP = 'C12'
@@ -295,7 +296,9 @@ def drive(ctx, mon, tier, only_case=None):
     def body(rng, ex, case):
         history(L, rng, ex, rng.randint(1, sz['nops']), sz['maxlen'], 'mixed' if rng.random() < 0.2 else 'wf', WEIGHTS,
                 esc=rng.random() < 0.12)
-        for v in ansi_values(L, ex)[-5:]:
+        with mon.quiet():
+            seam = esc_seam_values(L, rng, 2) if rng.random() < 0.3 else []
+        for v in ansi_values(L, ex)[-5:] + seam:
             n = len(v.base_str)
             if n > 80:
                 continue
